@@ -68,6 +68,8 @@ type c04Mod struct {
 
 // kinds: SI SR SD (source_in / source / default_source), TI RU DF (destination_in / destination /
 // default_destination), C (check) M (modify) D (deliver_to) RR (reroute) RJ (reject) X (other)
+// reject tokens: "RJ <code> <e0> <e1> <e2>" (rendered without arguments when 554 5.7.0, else with two), "RJx" ('reject 200'),
+// "RJA <n> <arg>…" = the n arguments as they are written in the configuration (hex runes, "-" = empty string), well-formed or not
 type c04Node struct {
 	kind  string
 	ok    bool     // C, M: module exists; SI, TI: table exists; RJ: arguments valid
@@ -76,7 +78,9 @@ type c04Node struct {
 	rules []string // SR, RU
 	mods  []c04Mod // M
 	darg  int      // D: -2 no argument, -1 unknown reference, >= 0 target id
-	reply [4]int   // RJ
+	reply [4]int   // RJ (legacy token: no argument when 554 5.7.0, else basic code + enhanced code)
+	raw   bool     // RJ: args are the arguments of the directive as they are written in the configuration (token RJA)
+	args  []string // RJ with raw
 	xvar  int      // X: which misplaced directive is rendered
 	ch    []*c04Node
 }
@@ -201,7 +205,16 @@ func c04EncNode(b *[]string, n *c04Node) {
 			*b = append(*b, "D", strconv.Itoa(n.darg))
 		}
 	case "RJ":
-		if !n.ok {
+		if n.raw {
+			*b = append(*b, "RJA", strconv.Itoa(len(n.args)))
+			for _, a := range n.args {
+				if a == "" {
+					*b = append(*b, "-")
+				} else {
+					*b = append(*b, vh.HexRunes(a))
+				}
+			}
+		} else if !n.ok {
 			*b = append(*b, "RJx")
 		} else {
 			*b = append(*b, "RJ", strconv.Itoa(n.reply[0]), strconv.Itoa(n.reply[1]), strconv.Itoa(n.reply[2]), strconv.Itoa(n.reply[3]))
@@ -327,6 +340,16 @@ func (r *c04Reader) node() *c04Node {
 		n.kind, n.darg = "D", -1
 	case k == "D":
 		n.kind, n.darg = "D", r.num()
+	case k == "RJA":
+		n.kind, n.raw, n.args = "RJ", true, []string{}
+		for i, cnt := 0, r.num(); i < cnt; i++ {
+			if t := r.next(); t == "-" {
+				n.args = append(n.args, "")
+			} else {
+				n.args = append(n.args, vh.UnhexRunes(t))
+			}
+		}
+		_, n.ok = c04DocReject(n.args)
 	case k == "RJx":
 		n.kind = "RJ"
 	case k == "RJ":
@@ -464,6 +487,12 @@ func c04Render(b *strings.Builder, ns []*c04Node, level int, ind string, tblName
 			}
 		case "RJ":
 			switch {
+			case n.raw:
+				b.WriteString("reject")
+				for _, a := range n.args {
+					b.WriteString(" " + c04CfgWord(a))
+				}
+				b.WriteString("\n")
 			case !n.ok:
 				b.WriteString("reject 200\n")
 			case n.reply == [4]int{554, 5, 7, 0}:
@@ -708,7 +737,9 @@ func c04LoadErrName(err error) string {
 		return "deliverNoArgs"
 	case has("missing or empty reroute pipeline configuration"):
 		return "emptyReroute"
-	case has("error code should start with either 4 or 5"):
+	case has("error code should start with either 4 or 5"), has("message can't be empty"), has("wrong amount of enhanced code parts"),
+		has("enhanced code should use either 4 or 5 as a first number"), has("invalid error code integer"), has("invalid count of arguments"),
+		has("strconv.Atoi: parsing"):
 		return "badReject"
 	case has("without 'deliver_to', 'reroute' or 'reject'"):
 		return "noDecision"
@@ -720,13 +751,110 @@ func c04LoadErrName(err error) string {
 	return "other:" + s
 }
 
+// the message of a reply is part of the observation unless it is the default text of 'reject' or the fixed text of one of
+// the four replies the pipeline produces itself
+const c04DefaultRejectMsg = "Message rejected due to a local policy"
+
+var c04StdMsgs = map[string]bool{
+	c04DefaultRejectMsg:                         true,
+	"Unable to normalize the sender address":    true,
+	"Invalid sender address":                    true,
+	"Unable to normalize the recipient address": true,
+	"Invalid recipient address":                 true,
+}
+
+// one argument as it is written in a configuration file
+func c04CfgWord(a string) string {
+	plain := a != ""
+	for _, r := range a {
+		if !(r >= 'a' && r <= 'z' || r >= 'A' && r <= 'Z' || r >= '0' && r <= '9' || r == '.' || r == '-' || r == '+' || r == '_') {
+			plain = false
+		}
+	}
+	if plain {
+		return a
+	}
+	return `"` + strings.ReplaceAll(a, `"`, `\"`) + `"` // the lexer knows one escape: \" (the generator uses no backslash)
+}
+
+// The documentation of 'reject' read on the arguments as written: "reject [smtp_code] [smtp_enhanced_code] [error_description]",
+// defaults 554 / 5.7.0 / "Message rejected due to a local policy"; the basic code is a number 4xx or 5xx, the enhanced code three
+// numbers separated by dots of which the first is 4 or 5, the description is not empty.  Returns the reply the block is
+// configured with in the form of c04Refusal, and whether the directive is well-formed.  Own decimal reader, no call into the
+// code under test.
+func c04DocReject(args []string) (string, bool) {
+	dec := func(s string) (int64, bool) {
+		neg := false
+		if s != "" && (s[0] == '-' || s[0] == '+') {
+			neg = s[0] == '-'
+			s = s[1:]
+		}
+		if s == "" || len(s) > 18 {
+			return 0, false
+		}
+		var v int64
+		for _, c := range []byte(s) {
+			if c < '0' || c > '9' {
+				return 0, false
+			}
+			v = v*10 + int64(c-'0')
+		}
+		if neg {
+			v = -v
+		}
+		return v, true
+	}
+	code, enh, msg := int64(554), [3]int64{5, 7, 0}, c04DefaultRejectMsg
+	if len(args) > 3 {
+		return "", false
+	}
+	if len(args) >= 1 {
+		v, ok := dec(args[0])
+		if !ok || v < 400 || v > 599 {
+			return "", false
+		}
+		code = v
+	}
+	if len(args) >= 2 {
+		parts := strings.Split(args[1], ".")
+		if len(parts) != 3 {
+			return "", false
+		}
+		for i, p := range parts {
+			v, ok := dec(p)
+			if !ok {
+				return "", false
+			}
+			enh[i] = v
+		}
+		if enh[0] != 4 && enh[0] != 5 {
+			return "", false
+		}
+	}
+	if len(args) == 3 {
+		if args[2] == "" {
+			return "", false
+		}
+		msg = args[2]
+	}
+	res := fmt.Sprintf("%d/%d.%d.%d", code, enh[0], enh[1], enh[2])
+	if !c04StdMsgs[msg] {
+		res += "/" + vh.HexRunes(msg)
+	}
+	return res, true
+}
+
 func c04Refusal(err error) string {
 	if err == nil {
 		return "ok"
 	}
 	var se *exterrors.SMTPError
 	if errors.As(err, &se) {
-		return fmt.Sprintf("%d/%d.%d.%d", se.Code, se.EnhancedCode[0], se.EnhancedCode[1], se.EnhancedCode[2])
+		res := fmt.Sprintf("%d/%d.%d.%d", se.Code, se.EnhancedCode[0], se.EnhancedCode[1], se.EnhancedCode[2])
+		if !c04StdMsgs[se.Message] {
+			res += "/" + vh.HexRunes(se.Message)
+		}
+		return res
 	}
 	s := err.Error()
 	switch {
@@ -1251,7 +1379,11 @@ func c04Oracle(root []*c04Node, from, to string) c04Out {
 		}
 		if rej != nil {
 			out.refused = true
-			out.reply = fmt.Sprintf("%d/%d.%d.%d", rej.reply[0], rej.reply[1], rej.reply[2], rej.reply[3])
+			if rej.raw {
+				out.reply, _ = c04DocReject(rej.args)
+			} else {
+				out.reply = fmt.Sprintf("%d/%d.%d.%d", rej.reply[0], rej.reply[1], rej.reply[2], rej.reply[3])
+			}
 			return out
 		}
 		finals, ok := c04RwRcpt(c04ModsOf(blk), []string{t})
@@ -1416,6 +1548,47 @@ func c04Depth(ns []*c04Node) int {
 	return d
 }
 
+func c04BadRejectIn(ns []*c04Node) []string {
+	for _, n := range ns {
+		if n.kind == "RJ" && !n.ok {
+			if n.raw {
+				q := []string{}
+				for _, a := range n.args {
+					q = append(q, c04CfgWord(a))
+				}
+				return q
+			}
+			return []string{"200"}
+		}
+		if bad := c04BadRejectIn(n.ch); bad != nil {
+			return bad
+		}
+	}
+	return nil
+}
+
+// input distribution of the 'reject' directives of a loaded configuration
+func c04RejectStats(out *vh.Out, ns []*c04Node) {
+	for _, n := range ns {
+		c04RejectStats(out, n.ch)
+		if n.kind != "RJ" || !n.ok {
+			continue
+		}
+		if !n.raw {
+			out.Stat("reject.legacy-token")
+			continue
+		}
+		out.Stat(fmt.Sprintf("reject.args%d", len(n.args)))
+		if len(n.args) >= 2 {
+			if strings.TrimLeft(n.args[0], "+")[0] != n.args[1][0] {
+				out.Stat("reject.classes-differ." + strings.TrimLeft(n.args[0], "+")[:1] + "xx-with-" + n.args[1][:1])
+			} else {
+				out.Stat("reject.classes-agree")
+			}
+		}
+	}
+}
+
 func c04RunCase(t *testing.T, out *vh.Out, c *c04Case) {
 	toks := c04Encode(c)
 	toks = append(toks, "|")
@@ -1446,6 +1619,12 @@ func c04RunCase(t *testing.T, out *vh.Out, c *c04Case) {
 	}
 	out.Stat("load.ok")
 	out.Stat(fmt.Sprintf("load.ok.depth%d", c04Depth(c.root)))
+	c04RejectStats(out, c.root)
+	// T3: a 'reject' whose arguments are not a refusal reply (no 4xx/5xx basic code, no enhanced code of class 4 or 5, empty
+	// description, too many arguments) is not a decision for the block; the configuration must not load
+	if bad := c04BadRejectIn(c.root); bad != nil {
+		out.Violation("C04/malformed-reject-accepted", op, fmt.Sprintf("configuration with 'reject %s' was accepted\n%s", strings.Join(bad, " "), text.String()))
+	}
 	c04PickStat = out.Stat
 	c04SchedStat = out.Stat
 	defer func() { c04PickStat, c04SchedStat = nil, nil }()
@@ -1512,6 +1691,12 @@ func c04RunCase(t *testing.T, out *vh.Out, c *c04Case) {
 				out.Stat(fmt.Sprintf("rcpt.ok.handoffs%d", min(len(got.delivs), 4)))
 			case want.reply != "":
 				out.Stat("rcpt.refused.configured")
+				if want.reply[0] != want.reply[4] {
+					out.Stat("rcpt.refused.configured.classes-differ")
+				}
+				if strings.Count(want.reply, "/") > 1 {
+					out.Stat("rcpt.refused.configured.own-message")
+				}
 			default:
 				out.Stat("rcpt.refused." + got.res)
 			}
@@ -1883,6 +2068,84 @@ func (g *c04Gen) reply() [4]int {
 	return [4]int{550 + g.r.Intn(10), 5, 7, g.r.Intn(10)}
 }
 
+// arguments of 'reject' that the parser has to refuse
+var c04BadRejects = [][]string{
+	{"200"}, {"250", "2.0.0"}, {"399"}, {"600"}, {"650", "5.7.1"}, {"-450"}, {"45"}, {"4500"}, {"abc"}, {"4xx"}, {"5.7.1"}, {"550.0"},
+	{"99999999999999999999"}, {"550", "2.0.0"}, {"550", "3.7.1"}, {"450", "6.7.1"}, {"550", "0.7.1"}, {"550", "-5.7.1"}, {"550", "5.7"}, {"550", "5"},
+	{"550", "5.7.1.2"}, {"550", "5.7."}, {"550", ".7.1"}, {"550", "5..1"}, {"550", "5.x.1"}, {"550", "5.7.one"}, {"550", "5,7,1"},
+	{"550", "571"}, {"550", "denied"}, {"550", "5.7.99999999999999999999"}, {"5.7.1", "550"}, {"550", "5.7.1", ""}, {"450", "4.7.1", "Try again", "later"},
+	{"550", "5.7.1", "No", "such", "user"}, {"denied"}, {"250", "5.7.1", "fine"}, {"550", "2.7.1", "fine"}, {"", "5.7.1"}, {"550", ""},
+}
+
+var c04RejectMsgs = []string{
+	"Try again later", "No such user", "Mailbox is gone", "Relaying denied", "Denied", "denied", "Sender blocked for now",
+	"550 5.1.1 No such user here", "4.7.1", "250 OK", "Benutzer unbekannt: M\u00fcller", "\u30e6\u30fc\u30b6\u30fc\u4e0d\u660e",
+	"Message rejected due to local policy", "message rejected due to a local policy", "Message rejected due to a local policy.",
+	" leading and trailing space ", "x", "a; b, c: d! (e) [f] <g@example.org> 100%", "it's over", "tab\there",
+	"a rather long description of the reason why this particular message is not going to be accepted by this particular server, today or any other day",
+}
+
+// Arguments of a well-formed 'reject' in every documented form (1 = basic code, 2 = + enhanced code, 3 = + description).  The
+// basic code and the enhanced code are chosen independently of each other: every 4xx/5xx code, enhanced class 4 or 5 whatever the
+// class of the basic code is, subject/detail numbers with 1-3 digits (now and then with leading zeros, a sign, or larger).
+func (g *c04Gen) rejectArgs() []string {
+	var code int
+	switch x := g.r.Intn(100); {
+	case x < 40:
+		code = []int{421, 450, 451, 452, 454, 455, 550, 551, 552, 553, 554, 556, 521, 571}[g.r.Intn(14)]
+	case x < 55:
+		code = []int{400, 499, 500, 599, 404, 503, 504, 535, 530, 432}[g.r.Intn(10)]
+	default:
+		code = 400 + g.r.Intn(200)
+	}
+	args := []string{strconv.Itoa(code)}
+	if g.r.Chance(2) {
+		args[0] = "+" + args[0]
+	}
+	n := 1
+	switch x := g.r.Intn(100); {
+	case x < 14:
+	case x < 60:
+		n = 2
+	default:
+		n = 3
+	}
+	if n >= 2 {
+		cls := code / 100
+		if g.r.Chance(40) {
+			cls = 9 - cls // the other class
+		}
+		num := func() string {
+			var v int
+			switch x := g.r.Intn(100); {
+			case x < 70:
+				v = g.r.Intn(10)
+			case x < 90:
+				v = 10 + g.r.Intn(90)
+			case x < 97:
+				v = 100 + g.r.Intn(900)
+			default:
+				v = []int{1000, 65535, 65536, 2147483647, 2147483648}[g.r.Intn(5)]
+			}
+			t := strconv.Itoa(v)
+			switch x := g.r.Intn(100); {
+			case x < 3:
+				t = "0" + t
+			case x < 4:
+				t = "+" + t
+			case x < 5:
+				t = "-" + t
+			}
+			return t
+		}
+		args = append(args, strconv.Itoa(cls)+"."+num()+"."+num())
+	}
+	if n == 3 {
+		args = append(args, c04RejectMsgs[g.r.Intn(len(c04RejectMsgs))])
+	}
+	return args
+}
+
 // directives of a destination block
 func (g *c04Gen) items(depth int) []*c04Node {
 	var out []*c04Node
@@ -1908,10 +2171,17 @@ func (g *c04Gen) items(depth int) []*c04Node {
 		return &c04Node{kind: "RR", ch: g.root(depth - 1)}
 	}
 	rj := func() *c04Node {
-		if g.hit(g.defect) {
-			return &c04Node{kind: "RJ"}
+		if g.hit(g.defect) || g.r.Chance(2) {
+			if g.r.Chance(10) {
+				return &c04Node{kind: "RJ"}
+			}
+			args := c04BadRejects[g.r.Intn(len(c04BadRejects))]
+			return &c04Node{kind: "RJ", raw: true, args: append([]string{}, args...)}
 		}
-		return &c04Node{kind: "RJ", ok: true, reply: g.reply()}
+		if g.r.Chance(35) {
+			return &c04Node{kind: "RJ", ok: true, reply: g.reply()}
+		}
+		return &c04Node{kind: "RJ", ok: true, raw: true, args: g.rejectArgs()}
 	}
 	switch x := g.r.Intn(100); {
 	case g.hit(g.defect * 2):
@@ -2243,6 +2513,13 @@ func TestVerifC04Routing(t *testing.T) {
 }
 
 // hand-written cases (tables are recomputed when they run)
+// op-line tokens of a 'reject' directive with the given arguments
+func c04RJA(args ...string) string {
+	var b []string
+	c04EncNode(&b, &c04Node{kind: "RJ", raw: true, args: args})
+	return strings.Join(b, " ")
+}
+
 var c04Fixed = []string{
 	// destination example.org { }  +  default_destination { deliver_to t0 }      (DESIGN §6 e)
 	"C04 case 0 2 RU 1 " + vh.HexRunes("example.org") + " 0 DF 1 D 0 | 1 E " + vh.HexRunes("bob@example.com") + " 1 " + vh.HexRunes("alice@example.org"),
@@ -2284,4 +2561,21 @@ var c04Fixed = []string{
 	// address rule declared after the domain rule still wins; duplicates: first declaration wins
 	"C04 case 0 4 RU 1 " + vh.HexRunes("example.org") + " 1 D 0 RU 2 " + vh.HexRunes("Alice@EXAMPLE.org") + " " + vh.HexRunes("example.org") + " 1 D 1 RU 1 " + vh.HexRunes("alice@example.org") + " 1 D 2 DF 1 RJ 554 5 7 0 | 1 E " +
 		vh.HexRunes("") + " 3 " + vh.HexRunes("alice@example.org") + " " + vh.HexRunes("bob@example.org") + " " + vh.HexRunes("bob@example.com"),
+	// every block refuses with the reply that is configured for it: basic code, enhanced code and description as written, also when
+	// the classes of the two codes disagree (450 5.7.1, 550 4.2.1), with one argument, for a source block and for destination blocks
+	"C04 case 0 2 SR 1 " + vh.HexRunes("blocked@example.com") + " 1 " + c04RJA("451", "5.7.1", "Sender blocked for now") +
+		" SD 6 RU 1 " + vh.HexRunes("greylisted@example.org") + " 1 " + c04RJA("450", "5.7.1", "Try again later") +
+		" RU 1 " + vh.HexRunes("gone@example.org") + " 1 " + c04RJA("550", "4.2.1", "Mailbox is gone") +
+		" RU 1 " + vh.HexRunes("example.org") + " 1 " + c04RJA("550", "5.1.1", "No such user") +
+		" RU 1 " + vh.HexRunes("m\u00fcnchen.de") + " 1 " + c04RJA("421", "4.3.2") +
+		" RU 1 " + vh.HexRunes("example.com") + " 1 " + c04RJA("452") +
+		" DF 1 " + c04RJA("554", "5.7.0", "Relaying denied") + " | 4" +
+		" E " + vh.HexRunes("sender@example.com") + " 3 " + vh.HexRunes("greylisted@example.org") + " " + vh.HexRunes("gone@example.org") + " " + vh.HexRunes("user@example.org") +
+		" V " + vh.HexRunes("Sender@EXAMPLE.com") + " 3 " + vh.HexRunes("Greylisted@EXAMPLE.org") + " " + vh.HexRunes("GONE@example.org.") + " " + vh.HexRunes("User@Example.Org") +
+		" E " + vh.HexRunes("sender@example.com") + " 3 " + vh.HexRunes("user@xn--mnchen-3ya.de") + " " + vh.HexRunes("user@example.com") + " " + vh.HexRunes("user@sub.example.org") +
+		" E " + vh.HexRunes("Blocked@example.com") + " 1 " + vh.HexRunes("user@example.org"),
+	// the same inside a nested pipeline, next to a block that delivers
+	"C04 case 1 2 RU 1 " + vh.HexRunes("example.org") + " 1 RR 2 RU 1 " + vh.HexRunes("alice@example.org") + " 1 " + c04RJA("550", "4.2.2", "Mailbox full") + " DF 1 D 0" +
+		" DF 1 " + c04RJA("450", "5.1.0") + " | 2 E " + vh.HexRunes("x@example.com") + " 3 " + vh.HexRunes("alice@example.org") + " " + vh.HexRunes("bob@example.org") + " " + vh.HexRunes("bob@example.com") +
+		" E " + vh.HexRunes("") + " 2 " + vh.HexRunes("ALICE@EXAMPLE.ORG") + " " + vh.HexRunes("carol@sub.example.org"),
 }
